@@ -280,7 +280,10 @@ class Paraxial:
         max_field = self.optic.fields.max_y_field
 
         if self.optic.field_type == 'object_height':
-            u1 = 0.1 * max_field / y[-1]
+            # height of the reverse-traced ray at the object plane, not at
+            # the first surface
+            obj_dist = self.surfaces.positions[1] - self.surfaces.positions[0]
+            u1 = 0.1 * max_field / (y[-1] + u[-1] * obj_dist)
         elif self.optic.field_type == 'angle':
             u1 = 0.1 * np.tan(np.deg2rad(max_field)) / u[-1]
 
